@@ -14,9 +14,20 @@
 (*               for.  The statement does not say WHEN a flush happens; the  *)
 (*               thresholds below are design, not contract.                  *)
 (*                                                                           *)
-(* The code as built satisfies the contract; the three switches below are    *)
+(* The write callback owns the packs it is handed: the production callback   *)
+(* (cdc_impl.go replicateMsgsFunc -> ChannelWriter.HandleReplicateMessage,   *)
+(* channel_writer.go:168-260) stamps Base.ReplicateInfo on every message and *)
+(* rewrites db / collection names IN PLACE, so the serialized size of a pack *)
+(* after the callback differs from its size on arrival.  Muts is the domain  *)
+(* of that effect per flush: "same" (read-only callback), "grow", "shrink"   *)
+(* (every non-empty pack handed over changes by one unit; only the sign is   *)
+(* meant, the driver measures the real byte delta).  buf[p][i].sz is the     *)
+(* CURRENT serialized size of a pack, cur[p] the bytes counted on arrival.   *)
+(*                                                                           *)
+(* The code as built satisfies the contract; the four switches below are     *)
 (* negative controls (each FALSE value is a plausible wrong implementation   *)
-(* of the place the brief asked to look at) used by the selftest configs.    *)
+(* of the place the brief asked to look at) used by the selftest configs and *)
+(* Packer_Remeasure.cfg (which the check runs and which MUST violate).       *)
 EXTENDS Integers, Sequences, FiniteSets, TLC, Json
 
 CONSTANTS Batchers,        \* batcher names (strings)
@@ -27,11 +38,16 @@ CONSTANTS Batchers,        \* batcher names (strings)
           TimerOn,         \* TRUE = tiny TimerInterval: a Receive marked "aged" finds the timer expired
           WithFail,        \* TRUE = the callback may fail at any flush
           MaxOps,          \* history bound
+          Muts,            \* what a callback may do to the packs it is handed: subset of {"same", "grow", "shrink"}
           ResetOnError,    \* TRUE (as built, packer.go:66-75,79): buffer is reset although the callback failed
           AddBeforeChecks, \* TRUE (as built, packer.go:77 precedes :83): the counter is raised before any flush decision
-          RemoveWhole      \* TRUE (as built, packer.go:71,105): a flush lowers the counter by the whole buffered size
+          RemoveWhole,     \* TRUE (as built, packer.go:71,105): a flush lowers the counter by the whole buffered size
+          MeasureOnArrival \* TRUE (as built, packer.go:59-63 accumulate, :71,105 remove currentMsgPackSize): the bytes a flush
+                           \* removes are the bytes that were added on arrival; FALSE = control: the buffered packs are
+                           \* measured again after the callback has run
 
 SizeOf(c) == CASE c = "zero" -> 0 [] c = "small" -> 1 [] c = "big" -> 3
+DeltaOf(m) == CASE m = "same" -> 0 [] m = "grow" -> 1 [] m = "shrink" -> -1
 
 VARIABLES buf,      \* [Batchers -> Seq([id, sz])]   Packer.msgs
           cur,      \* [Batchers -> Int]             Packer.currentMsgPackSize
@@ -51,6 +67,9 @@ RECURSIVE SumOver(_, _)
 SumOver(f, S) == IF S = {} THEN 0 ELSE LET x == CHOOSE x \in S : TRUE IN f[x] + SumOver(f, S \ {x})
 Ids(s) == [i \in 1..Len(s) |-> s[i].id]
 Iota(n) == [i \in 1..n |-> i]
+\* the callback's in-place effect on the packs it was handed (a pack without messages has nothing to edit)
+Mutate(b, m) == [i \in 1..Len(b) |-> [b[i] EXCEPT !.sz = IF @ = 0 THEN 0 ELSE @ + DeltaOf(m)]]
+Mutable(b) == \E i \in 1..Len(b) : b[i].sz > 0
 
 NoRet == [op |-> "none", p |-> "", called |-> FALSE, cbfail |-> FALSE, err |-> FALSE]
 
@@ -62,18 +81,23 @@ Init == /\ buf = [p \in Batchers |-> <<>>] /\ cur = [p \in Batchers |-> 0]
 FailChoices == IF WithFail THEN {FALSE, TRUE} ELSE {FALSE}
 AgedChoices == IF TimerOn THEN {FALSE, TRUE} ELSE {FALSE}
 
-(* the callback is handed the packs b; the deferred block / ClearMsgs tail resets the batcher *)
-Flush(p, b, g, lastsz, fail) ==
+(* the callback is handed the packs b (p's buffer, counted on arrival as cur[p], plus - in Receive - the new pack of   *)
+(* lastsz bytes) and may edit them in place (m); the deferred block / ClearMsgs tail then resets the batcher          *)
+Flush(p, b, g, lastsz, fail, m) ==
+    LET bm      == Mutate(b, m)
+        arrived == cur[p] + lastsz
+        removed == IF ~RemoveWhole THEN lastsz ELSE IF MeasureOnArrival THEN arrived ELSE SumSz(bm)
+    IN
     /\ deliv' = [deliv EXCEPT ![p] = @ \o Ids(b)]
     /\ IF fail /\ ~ResetOnError
-         THEN /\ buf' = [buf EXCEPT ![p] = b]
-              /\ cur' = [cur EXCEPT ![p] = SumSz(b)]
+         THEN /\ buf' = [buf EXCEPT ![p] = bm]
+              /\ cur' = [cur EXCEPT ![p] = arrived]
               /\ cnt' = [cnt EXCEPT ![p] = Len(b)]
               /\ global' = g
          ELSE /\ buf' = [buf EXCEPT ![p] = <<>>]
               /\ cur' = [cur EXCEPT ![p] = 0]
               /\ cnt' = [cnt EXCEPT ![p] = 0]
-              /\ global' = g - (IF RemoveWhole THEN SumSz(b) ELSE lastsz)
+              /\ global' = g - removed
 
 (* Packer.Receive, packer.go:57-98 *)
 WouldFlush(p, c, aged) ==
@@ -83,7 +107,7 @@ WouldFlush(p, c, aged) ==
     \/ (TimerOn /\ aged)                    \* :89  TimerChecker
     \/ cnt[p] + 1 >= MaxCount               \* :89  MsgCountChecker (only reached when the timer did not fire)
 
-Receive(p, c, fail, aged) ==
+Receive(p, c, fail, aged, m) ==
     LET sz     == SizeOf(c)
         pk     == [id |-> nArr[p] + 1, sz |-> sz]
         b2     == Append(buf[p], pk)                       \* :62
@@ -93,7 +117,7 @@ Receive(p, c, fail, aged) ==
     IN
     /\ nArr' = [nArr EXCEPT ![p] = @ + 1]
     /\ IF WouldFlush(p, c, aged)
-         THEN /\ Flush(p, b2, g2, sz, fail)
+         THEN /\ Flush(p, b2, g2, sz, fail, m)
               /\ last' = [op |-> "recv", p |-> p, called |-> TRUE, cbfail |-> fail, err |-> fail]
          ELSE /\ buf' = [buf EXCEPT ![p] = b2]
               /\ cur' = [cur EXCEPT ![p] = @ + sz]          \* :63
@@ -104,20 +128,26 @@ Receive(p, c, fail, aged) ==
 
 (* Packer.ClearMsgs, packer.go:100-109 (cdc_impl.go:1176-1181 on every exit of the channel loop);   *)
 (* the driver builds a fresh Packer for p afterwards, as a restarted channel loop would.             *)
-Clear(p, fail) ==
-    /\ Flush(p, buf[p], global, 0, fail)
+Clear(p, fail, m) ==
+    /\ Flush(p, buf[p], global, 0, fail, m)
     /\ nArr' = nArr
     /\ last' = [op |-> "clear", p |-> p, called |-> TRUE, cbfail |-> fail, err |-> fail]
+
+\* a callback that is not invoked, or is handed nothing it could edit, has no effect to choose
+MutChoices(b) == IF Mutable(b) THEN Muts ELSE {"same"}
 
 Next ==
     /\ Len(hist) < MaxOps
     /\ \/ \E p \in Batchers, c \in Classes, aged \in AgedChoices :
-          \E fail \in (IF WouldFlush(p, c, aged) THEN FailChoices ELSE {FALSE}) :
-            /\ Receive(p, c, fail, aged)
-            /\ hist' = Append(hist, [op |-> "recv", p |-> p, cls |-> c, fail |-> fail, aged |-> aged])
+          LET b2 == Append(buf[p], [id |-> nArr[p] + 1, sz |-> SizeOf(c)]) IN
+          \E fail \in (IF WouldFlush(p, c, aged) THEN FailChoices ELSE {FALSE}),
+             m \in (IF WouldFlush(p, c, aged) THEN MutChoices(b2) ELSE {"same"}) :
+            /\ Receive(p, c, fail, aged, m)
+            /\ hist' = Append(hist, [op |-> "recv", p |-> p, cls |-> c, fail |-> fail, aged |-> aged, mut |-> m])
        \/ \E p \in Batchers, fail \in FailChoices :
-            /\ Clear(p, fail)
-            /\ hist' = Append(hist, [op |-> "clear", p |-> p, fail |-> fail])
+          \E m \in MutChoices(buf[p]) :
+            /\ Clear(p, fail, m)
+            /\ hist' = Append(hist, [op |-> "clear", p |-> p, fail |-> fail, mut |-> m])
 
 Spec == Init /\ [][Next]_vars
 
@@ -134,6 +164,7 @@ ZeroWhenEmpty == (\A p \in Batchers : buf[p] = <<>>) => global = 0
 Contract == ExactlyOnceInOrder /\ ClearDeliversAll /\ ErrorReturned /\ ZeroWhenEmpty
 
 (* ---------------- design-level invariants (stronger than the statement) -- *)
+\* (a buffered pack has not been through a callback yet: its current size is its size on arrival)
 GlobalIsSum == /\ global = SumOver(cur, Batchers)
                /\ \A p \in Batchers : cur[p] = SumSz(buf[p])
 CountInSync == \A p \in Batchers : cnt[p] = Len(buf[p]) /\ Len(buf[p]) < MaxCount
